@@ -264,9 +264,11 @@ theorem C18_streaminfo_sound (rate ch bps : Nat) (s : StreamInfo) (h : StreamInf
     exact ⟨rfl, C08_streaminfo _ (by simp [StreamInfo.empty]), C12_streaminfo_ops _ 0 rfl⟩
   · cases h
 
-theorem C18_unknown_iff (tag : Nat) (data : List Nat) : (UnknownBlock.new tag data).isSome ↔ tag ≤ 126 := by
+/-- `new_unknown` accepts exactly the types `1..=126`: 127 is invalid, 0 is STREAMINFO's. -/
+theorem C18_unknown_iff (tag : Nat) (data : List Nat) :
+    (UnknownBlock.new tag data).isSome ↔ (1 ≤ tag ∧ tag ≤ 126) := by
   unfold UnknownBlock.new
-  by_cases h : tag ≤ 126
+  by_cases h : 1 ≤ tag ∧ tag ≤ 126
   · simp [h]
   · simp [h]
 
@@ -300,7 +302,11 @@ example :
     (FrameHeader.new 8 .leftSide 16 44100 false 300).map (·.count) = some 64 := by decide
 
 /-- Accepted metadata. -/
-example : (StreamInfo.new 44100 2 16).isSome = true ∧ (UnknownBlock.new 126 [1, 2, 3]).isSome = true := by decide
+example : (StreamInfo.new 44100 2 16).isSome = true ∧ (UnknownBlock.new 126 [1, 2, 3]).isSome = true ∧
+    (UnknownBlock.new 1 []).isSome = true := by decide
+
+/-- The STREAMINFO type 0 and the invalid type 127 are rejected. -/
+example : UnknownBlock.new 0 [1, 2, 3] = none ∧ UnknownBlock.new 127 [] = none := by decide
 
 /-- Wrap-around arguments are rejected: order `257 ≡ 1 (mod 2^8)`, an LPC order that disagrees
 with the coefficient list, a rate `≡ 44100 (mod 2^32)`, a channel count `≡ 2 (mod 2^8)`,
